@@ -446,4 +446,110 @@ theorem anchored_literal_is_string (l s : Name) :
       · have : ¬ (x = c) := fun e => h e.symm
         simp [h, this]
 
+/-! ## lists of plain names: exact string equality, nothing else
+
+A whitelist / blacklist of plain member names grants / denies exactly the LISTED names - whatever a
+probe name shares with a listed one (it extends one at either end, contains one, is a prefix or a suffix of
+one, joins two of them, differs by case only).  `build_yaqlization_settings` is free to store the names in
+any form (a set, one alternation regex, a trie ..) as long as these theorems keep holding for what
+`_validate_name` answers; the harness crosses every settings object with such near-miss names derived
+from its own entries. -/
+
+theorem anyMatch_ofNames (names : List Name) (n : Name) :
+    anyMatch (names.map (EntryLike.ofName (E := E))) n = true ↔ n ∈ names := by
+  rw [anyMatch_iff]
+  constructor
+  · rintro ⟨e, he, hm⟩
+    obtain ⟨m, hm', rfl⟩ := List.mem_map.mp he
+    rw [EntryLike.matches_ofName] at hm
+    have : n = m := by simpa using hm
+    subst this; exact hm'
+  · intro h
+    exact ⟨EntryLike.ofName n, List.mem_map.mpr ⟨n, h, rfl⟩, by simp [EntryLike.matches_ofName]⟩
+
+/-- C07.whitelist_exact for plain names: with a whitelist of (one or several) plain names, a
+    (non-underscore) name is allowed iff it IS one of the listed names -/
+theorem whitelist_plain_names_exact (exc : Err) (s : Settings E) (names : List Name) (n : Name)
+    (hw : s.whitelist = names.map EntryLike.ofName) (hne : names ≠ [])
+    (hn : startsUnderscore n = false) :
+    validateName exc s n = .ok () ↔ n ∈ names := by
+  have hw' : s.whitelist ≠ [] := by
+    rw [hw]; intro h; exact hne (List.map_eq_nil_iff.mp h)
+  rw [whitelist_exact exc s n hw' hn, ← anyMatch_iff, hw, anyMatch_ofNames]
+
+/-- ... and a blacklist of plain names (no whitelist) denies exactly the listed names -/
+theorem blacklist_plain_names_exact (exc : Err) (s : Settings E) (names : List Name) (n : Name)
+    (hw : s.whitelist = []) (hb : s.blacklist = names.map EntryLike.ofName)
+    (hn : startsUnderscore n = false) :
+    validateName exc s n = .ok () ↔ n ∉ names := by
+  rw [blacklist_exact exc s n hw hn, ← anyMatch_ofNames (E := E) names n, ← hb]
+  constructor
+  · intro h hm
+    obtain ⟨e, he, hme⟩ := (anyMatch_iff _ _).mp hm
+    rw [h e he] at hme; cases hme
+  · intro h e he
+    cases hme : EntryLike.matchesName e n with
+    | false => rfl
+    | true => exact absurd ((anyMatch_iff _ _).mpr ⟨e, he, hme⟩) h
+
+/-- a name that is not listed is refused by a whitelist of plain names on all three access paths - however
+    close it is to a listed name (the hypotheses do not look at its shape at all) -/
+theorem near_miss_refused (s : Settings E) (names : List Name) (n : Name) (kws : List Name)
+    (hw : s.whitelist = names.map EntryLike.ofName) (hne : names ≠ []) (hmiss : n ∉ names) :
+    attribution s n = .error .attributeError ∧ opDot s n kws = .error .attributeError ∧
+    indexation s n = .error .keyError := by
+  have hden : allowed s n = false := by
+    cases hu : startsUnderscore n with
+    | true => simp [allowed, hu]
+    | false =>
+      have h := whitelist_plain_names_exact (E := E) .attributeError s names n hw hne hu
+      rw [validate_ok_iff_allowed] at h
+      cases ha : allowed s n with
+      | false => rfl
+      | true => exact absurd (h.mp ha) hmiss
+  exact ⟨(attribution_denied_iff s n).mpr hden, (opDot_denied_iff s n kws).mpr hden,
+    (indexation_denied_iff s n).mpr hden⟩
+
+/-- a name that is not listed is NOT blocked by a blacklist of plain names (settings as built by
+    `build_yaqlization_settings`: the remapping targets are blacklisted as plain names too) -/
+theorem near_miss_not_blocked (a m i au : Bool) (names : List Name) (remap : List (Name × RemapTarget))
+    (n : Name) (hn : startsUnderscore n = false) (hmiss : n ∉ names)
+    (hremap : ∀ kv ∈ remap, kv.2.target ≠ n) :
+    allowed (buildSettings (E := E) a m i au [] (names.map EntryLike.ofName) remap) n = true := by
+  have hb : (buildSettings (E := E) a m i au [] (names.map EntryLike.ofName) remap).blacklist =
+      (names ++ remap.map (fun kv => kv.2.target)).map EntryLike.ofName := by
+    simp [buildSettings, List.map_append, List.map_map, Function.comp_def]
+  rw [← validate_ok_iff_allowed .attributeError,
+    blacklist_plain_names_exact (E := E) .attributeError _ (names ++ remap.map (fun kv => kv.2.target)) n rfl hb hn]
+  intro hmem
+  rcases List.mem_append.mp hmem with h | h
+  · exact hmiss h
+  · obtain ⟨kv, hkv, he⟩ := List.mem_map.mp h
+    exact hremap kv hkv he
+
+-- whitelist ['name', 'id', 'title']: the listed names pass; `name_token` (starts with `name`), `subtitle` (ends
+-- with `title`), `hidden` (contains `id`), `nameid` (joins two) and `Name` are refused
+example :
+    let s : Settings Entry := { whitelist := ["name".toList, "id".toList, "title".toList].map .str }
+    validateName .attributeError s "id".toList = .ok () ∧ validateName .attributeError s "title".toList = .ok () ∧
+    validateName .attributeError s "name_token".toList = .error .attributeError ∧
+    validateName .attributeError s "subtitle".toList = .error .attributeError ∧
+    validateName .attributeError s "hidden".toList = .error .attributeError ∧
+    validateName .attributeError s "nameid".toList = .error .attributeError ∧
+    validateName .attributeError s "Name".toList = .error .attributeError ∧
+    indexation s "subtitle".toList = .error .keyError ∧
+    opDot s "name_token".toList [] = .error .attributeError := by decide
+-- blacklist ['get_id', 'get_name']: `get_id_secret`, `forget_name`, `get_i` stay reachable
+example :
+    let s : Settings Entry := buildSettings true true true false [] (["get_id".toList, "get_name".toList].map .str) []
+    allowed s "get_id".toList = false ∧ allowed s "get_name".toList = false ∧
+    allowed s "get_id_secret".toList = true ∧ allowed s "forget_name".toList = true ∧ allowed s "get_i".toList = true := by
+  decide
+-- the alternation regex `^name|id|title$` (as a table of what `re.search` accepts among these names) is NOT the
+-- list of the three names: the theorems above distinguish them
+example :
+    let folded : Settings Entry := { whitelist := [.table ["name".toList, "id".toList, "title".toList,
+      "name_token".toList, "subtitle".toList, "hidden".toList]] }
+    validateName .attributeError folded "hidden".toList = .ok () := by decide
+
 end Yaql.Props.C07
